@@ -62,13 +62,12 @@ def parse_inline_params(s, preserve_order=True):
             re.findall(REGEX_VALUE_IN_QUOTES, v) or re.findall(REGEX_VALUE_IN_APOSTROPHES, v)
         )
 
-        # Remove leading and trailing double quotes.
-        v = re.sub('^"', "", v)
-        v = re.sub('"$', "", v)
-
-        # Remove leading and trailing single quotes.
-        v = re.sub("^'", "", v)
-        v = re.sub("'$", "", v)
+        # Remove the enclosing double quotes or the enclosing single quotes but not both.
+        # The other type of quotes at either end is part of the value.
+        if len(v) >= 2 and v[0] == '"' and v[-1] == '"':
+            v = v[1:-1]
+        elif len(v) >= 2 and v[0] == "'" and v[-1] == "'":
+            v = v[1:-1]
 
         quotes_in_string = False
         if v != "":
